@@ -416,9 +416,8 @@ func PutInsertStatement(stmt *InsertStatement) {
 	}
 
 	// Reset slices but keep capacity
-	stmt.Columns = stmt.Columns[:0]
-	stmt.Values = stmt.Values[:0]
-	stmt.TableName = ""
+	// Reset every field (a pooled node must be indistinguishable from a new one) but keep slice capacity
+	*stmt = InsertStatement{Columns: stmt.Columns[:0], Values: stmt.Values[:0]}
 
 	// Return to pool
 	insertStmtPool.Put(stmt)
@@ -445,9 +444,7 @@ func PutUpdateStatement(stmt *UpdateStatement) {
 	PutExpression(stmt.Where)
 
 	// Reset fields
-	stmt.Assignments = stmt.Assignments[:0]
-	stmt.Where = nil
-	stmt.TableName = ""
+	*stmt = UpdateStatement{Assignments: stmt.Assignments[:0]}
 
 	// Return to pool
 	updateStmtPool.Put(stmt)
@@ -468,8 +465,7 @@ func PutDeleteStatement(stmt *DeleteStatement) {
 	PutExpression(stmt.Where)
 
 	// Reset fields
-	stmt.Where = nil
-	stmt.TableName = ""
+	*stmt = DeleteStatement{}
 
 	// Return to pool
 	deleteStmtPool.Put(stmt)
@@ -551,14 +547,8 @@ func PutSelectStatement(stmt *SelectStatement) {
 	for i := range stmt.OrderBy {
 		stmt.OrderBy[i].Expression = nil
 	}
-	stmt.OrderBy = stmt.OrderBy[:0]
-
-	stmt.TableName = ""
-	stmt.Where = nil
-	stmt.Limit = nil
-	stmt.Offset = nil
-	stmt.Fetch = nil
-	stmt.For = nil
+	// Reset every field (FROM, joins, grouping, CTEs, ... included) but keep slice capacity
+	*stmt = SelectStatement{Columns: stmt.Columns[:0], OrderBy: stmt.OrderBy[:0]}
 
 	// Return to pool
 	selectStmtPool.Put(stmt)
@@ -574,7 +564,7 @@ func PutIdentifier(ident *Identifier) {
 	if ident == nil {
 		return
 	}
-	ident.Name = ""
+	*ident = Identifier{}
 	identifierPool.Put(ident)
 }
 
@@ -590,9 +580,7 @@ func PutBinaryExpression(expr *BinaryExpression) {
 	}
 	PutExpression(expr.Left)
 	PutExpression(expr.Right)
-	expr.Left = nil
-	expr.Right = nil
-	expr.Operator = ""
+	*expr = BinaryExpression{}
 	binaryExprPool.Put(expr)
 }
 
@@ -729,7 +717,7 @@ func PutExpression(expr Expression) {
 		// Process and collect child expressions
 		switch e := current.(type) {
 		case *Identifier:
-			e.Name = ""
+			*e = Identifier{}
 			identifierPool.Put(e)
 
 		case *BinaryExpression:
@@ -739,9 +727,7 @@ func PutExpression(expr Expression) {
 			if e.Right != nil {
 				workQueue = append(workQueue, e.Right)
 			}
-			e.Left = nil
-			e.Right = nil
-			e.Operator = ""
+			*e = BinaryExpression{}
 			binaryExprPool.Put(e)
 
 		case *LiteralValue:
@@ -756,11 +742,7 @@ func PutExpression(expr Expression) {
 				}
 				e.Arguments[i] = nil
 			}
-			e.Arguments = e.Arguments[:0]
-			e.Name = ""
-			e.Over = nil
-			e.Distinct = false
-			e.Filter = nil
+			*e = FunctionCall{Arguments: e.Arguments[:0]}
 			functionCallPool.Put(e)
 
 		case *CaseExpression:
@@ -985,11 +967,7 @@ func PutFunctionCall(fc *FunctionCall) {
 		PutExpression(fc.Arguments[i])
 		fc.Arguments[i] = nil
 	}
-	fc.Arguments = fc.Arguments[:0]
-	fc.Name = ""
-	fc.Over = nil
-	fc.Distinct = false
-	fc.Filter = nil
+	*fc = FunctionCall{Arguments: fc.Arguments[:0]}
 	functionCallPool.Put(fc)
 }
 
